@@ -19,7 +19,8 @@ RULE = ("(1) uniform-regime files in each of 48 dialect points (four key/value s
         "-> reference weighted vote (skipped when the checklines and checklines+1 window conventions disagree); "
         "(4) supplied dialects (trailing/repeated/order variations) used verbatim for reporting and printing; "
         "non-trivial = >= 3 lines (1,4) / both values present in the window (3); distinct by file text + checklines")
-REQUIRED = ["repeated keys whose earlier occurrences are empty: dialects compared", "dialect compared after an update written in another spelling", "uniform files with a bare ';' inside quoted values", "uniform files: dialect compared", "infer_dialect strings compared", "routing observed: gtf", "routing observed: gff",
+REQUIRED = ["library default dialect compared after a case", "sources sharing a dialect dictionary used as data: dialects compared afterwards",
+            "repeated keys whose earlier occurrences are empty: dialects compared", "dialect compared after an update written in another spelling", "uniform files with a bare ';' inside quoted values", "uniform files: dialect compared", "infer_dialect strings compared", "routing observed: gtf", "routing observed: gff",
             "mixtures decided by vote", "mixtures with exact tie", "supplied dialects compared", "re-ordered feature lists compared",
             "supplied format decides the import semantics (iterator data)"]
 ASSUMPTIONS = [
@@ -32,8 +33,27 @@ QUICK_SHARDS = 4
 CKS = [0, 1, 2, 5, 10, 50]
 
 
+_DEFAULTS = {}
+
+
 def setup(ctx):
+    import copy
+    from gffutils import constants
     contracts.install_all()
+    # the library's default dialect is data, not state: inference over any input leaves it as it was
+    _DEFAULTS["dialect"] = copy.deepcopy(constants.dialect)
+
+
+def defaults_untouched(ctx, case):
+    import copy
+    from gffutils import constants
+    ctx.mon("library default dialect compared after a case")
+    if constants.dialect != _DEFAULTS["dialect"]:
+        now = copy.deepcopy(constants.dialect)
+        constants.dialect.clear()
+        constants.dialect.update(copy.deepcopy(_DEFAULTS["dialect"]))
+        ctx.violation(case, {"why": "inference changed the library's default dialect (constants.dialect) for the rest of the process",
+                             "before": _DEFAULTS["dialect"], "after": now})
 
 
 def diff_dialect(got, exp, order=True):
@@ -69,7 +89,10 @@ def execute(ctx, case):
             featlist(ctx, case)
         elif kind == "routing_supplied":
             routing_supplied(ctx, case)
+        elif kind == "shared_dialects":
+            shared_dialects(ctx, case)
     finally:
+        defaults_untouched(ctx, case)
         for v in contracts.drain():
             ctx.violation(case, v)
 
@@ -315,6 +338,41 @@ def featlist(ctx, case):
         os.unlink(src)
 
 
+def shared_dialects(ctx, case):
+    """Feature objects whose dialect dictionary is shared with something else - every feature read from a FeatureDB shares
+    db.dialect, a hand-made Feature carries the library default - used as data for another inference: what they share is
+    left as it was (the source database still reports its dialect, the defaults are untouched)."""
+    import copy
+    import gffutils
+    from gffutils.iterators import DataIterator
+
+    D, D2 = case["D"], case["D2"]
+    text, text2 = F.text_of(case["items"], D), F.text_of(case["items2"], D2)
+    try:
+        src_db = gffutils.create_db(text, ":memory:", from_string=True, merge_strategy="create_unique")
+        snap = copy.deepcopy(dict(src_db.dialect))
+        other = list(DataIterator(text2, from_string=True))
+        hand = gffutils.Feature(seqid="chr1", source="s", featuretype="gene", start=1, end=9, attributes={"Zkey": ["v"], "Name": ["n"]})
+        how = case["how"]
+        if how == "db as data":
+            it = DataIterator(src_db, checklines=case["checklines"])
+            list(it)
+        elif how == "db into new db":
+            gffutils.create_db(src_db, ":memory:", merge_strategy="create_unique", checklines=case["checklines"]).conn.close()
+        elif how == "db features then others":
+            list(DataIterator(list(src_db.all_features()) + other, checklines=case["checklines"]))
+        else:
+            list(DataIterator([hand] + other, checklines=case["checklines"]))
+    except Exception as ex:
+        ctx.skip("shared_dialects: %s raised (only what is shared is judged)" % type(ex).__name__)
+        return
+    ctx.mon("sources sharing a dialect dictionary used as data: dialects compared afterwards")
+    if dict(src_db.dialect) != snap:
+        ctx.violation(case, {"why": "using a FeatureDB (or its features) as data for another inference changed the dialect that database reports",
+                             "before": snap, "after": dict(src_db.dialect), "how": how})
+    src_db.conn.close()
+
+
 def routing_supplied(ctx, case):
     """An explicitly supplied dialect decides the import semantics by its format, whatever form the data has -
     also when the data is an already built DataIterator that inferred another format."""
@@ -549,6 +607,18 @@ def run(ctx):
         for rec in recs[:3]:
             c2 = {"kind": "string", "D": D, "attrs": rec["attrs"]}
             execute(ctx, c2)
+    # (1c) sources that share their dialect dictionary with something else
+    for _ in range(ctx.budget(120, 9000)):
+        D = rng.choice(pts)
+        D2 = rng.choice(pts)
+        recs = F.uniform_records(rng, D, rng.choice([2, 3, 5, 12]), ids="dups", coords=True)
+        recs2 = F.uniform_records(rng, D2, rng.choice([2, 5, 12]), ids="dups", coords=True)
+        case = {"kind": "shared_dialects", "D": D, "D2": D2, "items": F.decorate(rng, recs, directives=False),
+                "items2": F.decorate(rng, recs2, directives=False), "checklines": rng.choice([0, 1, 2, 10, 30]),
+                "how": rng.choice(["db as data", "db into new db", "db features then others", "hand-made feature first"])}
+        execute(ctx, case)
+        ctx.case(("shared_dialects", F.text_of(case["items"], D), F.text_of(case["items2"], D2), case["how"], case["checklines"]), True,
+                 cls="shared dialect: " + case["how"])
     # (1a) repeated keys whose first occurrences are empty
     if ctx.shard == 0:
         for a in ('gene_id "g"; tag ""; tag "basic";', 'gene_id "g"; tag ""; tag ""; tag "basic"', 'gene_id "g" ; tag "" ; tag "basic"',
